@@ -78,6 +78,11 @@ def rerun(path):
         print("no failing input recorded (verifier gave no model and the directed search found none);")
         print("verifier output:\n" + (rec.get("verifier_output") or ""))
         return 1
+    if rec.get("failing_input_from") == "asm_abi":
+        import asm_abi
+        r = asm_abi.rerun(fi)
+        print(json.dumps(r, indent=1)[:4000])
+        return 1 if r.get("reproduced") else 0
     if rec.get("failing_input_from") == "search_c":
         import search_c
         r = search_c.rerun(fi)
